@@ -93,7 +93,20 @@ func (vc *VC) run() {
 		unsup("function has no body")
 	}
 	if fn.Recover != nil {
-		unsup("function uses recover")
+		// defers give the function a recover block; it is executed only when a panic is recovered by
+		// a deferred call. Deferred function literals (which could call recover) are out of subset.
+		for _, b := range fn.Blocks {
+			for _, ins := range b.Instrs {
+				if d, ok := ins.(*ssa.Defer); ok {
+					if _, lit := d.Call.Value.(*ssa.MakeClosure); lit {
+						if mc := d.Call.Value.(*ssa.MakeClosure); !strings.HasSuffix(mc.Fn.Name(), "$bound") {
+							unsup("function defers a function literal (may recover)")
+						}
+					}
+				}
+			}
+		}
+		vc.note("defers: run at every return in LIFO order; the panic/recover exit is not modelled (panics of this function's own code are excluded by its safety obligations)")
 	}
 	vc.declare("$A0", SInt)
 	vc.fact("true", lt("0", "$A0"))
